@@ -333,6 +333,20 @@ def main(modname, argv=None):
             print('note: listed finding %s was not reproduced in this %s run' % (k['signature'], args.tier))
     rc = 0
     reported = {}
+    # determinism: re-run (up to 3) violating cases once; a violation that does not reproduce is marked
+    rerun_idx = []
+    for idx, v in unknown:
+        if idx < len(cases) and idx not in rerun_idx and v['sig'] not in ('timeout', 'crash') and len(rerun_idx) < 3:
+            rerun_idx.append(idx)
+    rerun_sigs = {}
+    if rerun_idx and not os.environ.get('VERIF_NO_RERUN'):
+        sub = [dict(cases[i], timeout=cases[i].get('timeout', timeout)) for i in rerun_idx]
+        pool2 = Pool(modname, min(args.workers, len(sub)), timeout)
+        for j, kind, payload in pool2.run(sub, None):
+            rerun_sigs[rerun_idx[j]] = set(x['sig'] for x in payload.get('violations', [])) if kind == 'ok' else {kind}
+    for idx, v in unknown:
+        if idx in rerun_sigs:
+            v['reproduced_on_rerun'] = v['sig'] in rerun_sigs[idx]
     for idx, v in unknown:
         if v['sig'] in reported:
             reported[v['sig']][1] += 1
@@ -340,7 +354,8 @@ def main(modname, argv=None):
         path = write_replay(prop, cases[idx] if idx < len(cases) else {}, v)
         reported[v['sig']] = [path, 1, v]
     for sig, (path, n, v) in reported.items():
-        print('violation: %s -- %s (%d case(s))' % (sig, str(v.get('what', ''))[:300], n))
+        print('violation: %s -- %s (%d case(s)%s)' % (sig, str(v.get('what', ''))[:300], n,
+                                                     '' if v.get('reproduced_on_rerun', True) else '; NOT reproduced when the case was re-run: nondeterministic'))
         print('VIOLATION property=%s replay=%s' % (prop, path))
         rc = 1
 
